@@ -234,6 +234,39 @@ def multipool_repro(ctx, env):
     return 3
 
 
+def overlap_case(ctx, env):
+    """Two calls on one sampler over a library of IDENTICAL prior rows with uninformative data: every accepted row has the same
+    conditional posterior, so a linear-parameter draw is a fixed function of the standard normals consumed -- a double that appears
+    in both calls means the second call's child stream re-reads a stretch of the first call's."""
+    import astropy.units as u
+    from thejoker.samples import JokerSamples
+    from thejoker.thejoker import TheJoker
+
+    lib = JokerSamples()
+    n = 64
+    lib["P"], lib["e"] = np.full(n, 17.5) * u.day, np.full(n, 0.25) * u.one
+    lib["omega"], lib["M0"], lib["s"] = np.full(n, 1.0) * u.rad, np.full(n, 2.0) * u.rad, np.zeros(n) * u.km / u.s
+    fn = os.path.join(ctx.scratch, "c10_identical.hdf5")
+    lib.write(fn, overwrite=True)
+    case = dict(family="streams", scenario="two file calls over a library of identical rows, n_linear_samples=8")
+    try:
+        joker = TheJoker(env["prior"], rng=np.random.default_rng(909))
+        with warnings.catch_warnings():
+            warnings.simplefilter("ignore")
+            a = joker.rejection_sample(flat_data(), fn, n_linear_samples=8, n_batches=2)
+            b = joker.rejection_sample(flat_data(), fn, n_linear_samples=8, n_batches=2)
+        ka, kb = set(np.asarray(a["K"].value, float).tolist()), set(np.asarray(b["K"].value, float).tolist())
+        if len(ka) < 0.9 * len(a):
+            ctx.fail("predicate", "C10:streams", f"{case['scenario']}: only {len(ka)} distinct K draws among {len(a)} rows of one call", case=case)
+        common = ka & kb
+        if common:
+            ctx.fail("predicate", "C10:streams", f"{case['scenario']}: {len(common)} of the {len(b)} linear draws of call #2 are bit-identical to draws of call #1 "
+                     "(the calls' child streams overlap)", case=case)
+    except Exception as e:
+        ctx.fail("predicate", "C10:streams", f"{case['scenario']}: raised {type(e).__name__}: {str(e)[:150]}", case=case)
+    return 1
+
+
 def stream_cases(ctx, env):
     """Record the spawn protocol on real calls and hand it to the model."""
     import numpy.random as npr
@@ -326,6 +359,7 @@ def run(ctx):
     env = setup(ctx)
     n_eval, nt = reproducibility(ctx, env)
     n_eval += multipool_repro(ctx, env)
+    n_eval += overlap_case(ctx, env)
     n_eval += cross_process(ctx)
     terms, kept = stream_cases(ctx, env)
     n_eval += len(terms)
